@@ -46,6 +46,7 @@ partial def loop (h : IO.FS.Stream) (fixed : Bool) (w : W) (c : Cur) : IO Unit :
   | ["add", b, n, l] => chg (.add n.toNat! l.toNat!) b.toNat!
   | ["rm", b, n, l] => chg (.rm n.toNat! l.toNat!) b.toNat!
   | ["mod", b, n, o, nw, sc] => chg (.mod n.toNat! o.toNat! nw.toNat! (BdDrv.parseScript sc)) b.toNat!
+  | ["ren", b, src, n, o, nw, sc] => chg (.ren src.toNat! n.toNat! o.toNat! nw.toNat! (BdDrv.parseScript sc)) b.toNat!
   | ["fork", b, ts] => IO.println "ok"; loop h fixed (fork w b.toNat! (nats ts)) c
   | ["merge", bs] => fin (mergeBranches w (nats bs))
   | ["drop", b] => IO.println "ok"; loop h fixed { w with brs := w.brs.filter (·.1 ≠ b.toNat!) } c
